@@ -49,7 +49,7 @@ def run(chk):
     chk.rule('C17-S', 'the _DEFAULT_* module variables are written only by the set_default_* functions')
     chk.rule('C17-R', 'a validation-level test never reads a parameter that may still be the unresolved None')
 
-    n = forwarding.check_forwarding(chk, c, 'C17-F', CONTEXT, exempt=EXEMPT)
+    n = forwarding.check_forwarding(chk, c, 'C17-F', CONTEXT, exempt=EXEMPT, check_own=True)
     chk.count('call sites with a context parameter in scope', n)
     chk.floor('C17-F call sites', n, 300)
 
